@@ -51,7 +51,7 @@ def _ob(kind):
         x = I.sym('x1', lo=1, hi=U128 // 4)
         y = I.sym('y1', lo=1, hi=U128 // 4)
         S = I.sym('S1', lo=MINLIQ + 1, hi=U128 // 4)
-        put_pool(I, pool_info('p1', ['uA', 'uB'], [6, 6], [x, y], xyk(), pool_fee(10 ** 15, 2 * 10 ** 15, 0)))
+        put_pool(I, pool_info('p1', ['uA', 'uB'], [6, 6], [x, y], xyk(), param_fees(I)))
         b.set(PM, 'uA', x)
         b.set(PM, 'uB', y)
         b.set(PM, LP1, MINLIQ)
@@ -149,7 +149,7 @@ def _replay(kind):
         ch = m['_choices']
         target = TARGETS[ch.get('target', 0)]
         to_victim = ch.get('receiver_is_victim', 0) == 1
-        fees = (10 ** 15, 2 * 10 ** 15, 0, [])
+        fees = fees_of_model(m)
         steps = [{'op': 'set_pool', 'pool': pool_json('p1', ['uA', 'uB'], [6, 6], [m['x1'], m['y1']], 'constant_product', fees)}]
         steps += _mints([('pool_manager', [('uA', m['x1']), ('uB', m['y1']), (LP1, MINLIQ)]),
                          ('farm_manager', [(LP1, m['pm_amt'] + m['pv_amt'])]),
